@@ -189,6 +189,31 @@ def units(w):
         U.append(rel_unit("nodes.py::NodeFor.evaluate", "set", lambda it, n=n: b_for(it, n, "set"), c_for, n))
         for what in ("keys", "values", "entries"):
             U.append(rel_unit("nodes.py::NodeFor.evaluate", f"map {what}", lambda it, n=n, what=what: b_for(it, n, "map", what), c_for, n))
+        # comprehensions over a set / a map: the sequence of values the body sees (its side effects make the order observable)
+        def b_comp(it, cls_, n=n, kind="set", what=None):
+            seen = PList([])
+
+            def outcome(it_, env):
+                ent = [e for e in env.fields["map"].entries if e[0] == "x"]
+                seen.items.append(ent[0][1] if ent else None)
+                return ent[0][1] if ent else V.NULL
+            body = S.node("body", outcome)
+            coll = mkset(it, n) if kind == "set" else mkmap(it, n)
+            fields = {"valueExpr": body, "identifier": "x", "listExpr": S.node("c", coll), "what": what, "conditionExpr": None, "pos": None}
+            if cls_ == "NodeMapComprehension":
+                fields["keyExpr"] = body
+            return [Obj(nodes[cls_], fields), real_env(w, it, {}), seen]
+
+        def c_comp(cls_):
+            def call(it, a):
+                it.call(w.func(f"nodes.py::{cls_}.evaluate"), a[:2])
+                return a[2]
+            return call
+        for cls_ in ("NodeListComprehension", "NodeSetComprehension", "NodeMapComprehension"):
+            U.append(rel_unit(f"nodes.py::{cls_}.evaluate", "over a set", lambda it, n=n, cls_=cls_: b_comp(it, cls_, n, "set"), c_comp(cls_), n))
+            for what in ("keys", "values", "entries"):
+                U.append(rel_unit(f"nodes.py::{cls_}.evaluate", f"over a map, {what}", lambda it, n=n, cls_=cls_, what=what: b_comp(it, cls_, n, "map", what), c_comp(cls_), n))
+
         # destructuring for-loop: the members of a set element are bound in sorted order
         def b_fordestr(it, n=n):
             node = Obj(nodes["NodeFor"], {"identifiers": PList(["a", "b", "c"]), "expression": None, "block": None, "what": None, "pos": V.pos(it)})
@@ -266,6 +291,9 @@ def [k1, k2, k3, k4] = kinds; append(out, [k1, k2, k3, k4]);
 append(out, string(<<<NULL => 1, TRUE => 2, 'pear' => 3, 'apple' => 4, [1] => 5, 7 => 6, date('20200101') => 7>>>));
 append(out, sorted([NULL, TRUE, 'pear', [1, 2], 3, 'apple', FALSE, 2.5]));
 append(out, [f(1) for f in <<fn(x) x + 1, fn(x) x * 10, fn(x) x - 5, fn(x) 7>>]);
+def log1 = []; <<do append(log1, x); x end for x in s>>; append(out, log1);
+def log2 = []; <<<do append(log2, x); x end => 1 for x in s>>>; append(out, log2);
+def log3 = []; [do append(log3, k); k end for k in keys m]; <<do append(log3, v); v end for v in values m>>; append(out, log3);
 do error s catch all append(out, 'caught') end;
 println(string(out));
 error <<'e2', 'e1'>>;
